@@ -40,6 +40,26 @@ needs = {
 "C19-2": ("errCh capacity = numPrimes instead of concurrency", "failing entropy source with concurrency >= numPrimes+2 (slow failing reads): the call hangs and leaks goroutines"),
 "C20-1": ("same in-place offset slip as C18-2", "a session created with a derivation offset reaches Start(); the damage shows on a later deep-compare / second use"),
 "C20-2": ("EdDSA nonce derived as a hash of (ssid, w_i, m)", "two completed sessions on the same message and the same signer subset: identical R"),
+"C01-3": ("ECDSA signing round1.Update reads SignRound1Message1s twice: the round-1 commitment broadcast is no longer awaited", "one P_j->P_i copy of SignRound1Message2 overtaken by four rounds of later traffic: P_i panics in round 5 (same change as C07-3, written independently)"),
+"C01-4": ("signing getSSID builds the session id with spare capacity; append(ssid, idx...) in rounds 2-6 then writes in place", "a (key, signer set) whose session-id hash has a leading zero byte (about 1 in 256): honest Bob proofs are rejected in round 3"),
+"C03-3": ("ECPoint.Equals compares p.Y() with itself: equality is x-only", "secp256k1 and a dealer sending exactly the negated share (needs a faulty dealer: decided by C05's negation cells, C03 quantifies over honest runs)"),
+"C03-4": ("vss.Share.Verify accepts any number of commitments > threshold", "a dealer that is self-consistent with a degree-(t+1) polynomial in commitment, reveal and shares (same change as C05-4; needs a faulty dealer: decided by C05)"),
+"C04-3": ("EdDSA resharing resetOK 'tidied' into copy() from a slice sized by oldOK: newOK[len(oldOK):] is never reset", "new committee larger than the participating old subset and a high-indexed new member silent before its ACK: old shares erased without its acknowledgement"),
+"C04-4": ("ECDSA resharing round 2 no longer stores generated pre-parameters into the save data", "a new member that passes no pre-parameters (library generates them) with the factorisation proof on: old shares erased, that member aborts in round 5"),
+"C05-3": ("ProofBobWC.Verify range checks merged with &&: an out-of-range s1 alone is accepted", "a self-consistent MtA response (library prover) with a multiplier far above q^3"),
+"C05-4": ("vss.Share.Verify loops over all supplied commitments and rejects only len <= threshold", "an ECDSA keygen dealer that commits to, reveals and shares a degree-(t+1) polynomial consistently: honest key data no longer lies on a degree-t polynomial"),
+"C06-3": ("signing round 3 error channel sized len(Parties) while 2(n-1) verifier goroutines may report", ">= 3 signers and more than n failing Bob-proof checks (both proofs of both peers): the Update call hangs holding the party mutex"),
+"C06-4": ("SignRound8Message.ValidateBasic no longer requires 5 decommitment parts (round 9 guard is '!ok && len != 4')", "a peer that commits in round 7 to a too-short list and opens it correctly in round 8: index out of range in round9.Start"),
+"C07-3": ("same one-token slip as C01-3 (SignRound1Message1s read twice)", "one copy of SignRound1Message2 held back past round 4"),
+"C07-4": ("ECDSA resharing StoreMessage declines a DGRound4Message1 whose sender's DGRound2Message1 has not arrived", "N_j's DGRound2Message1 to N_i delayed past N_j's own DGRound4Message1: N_i never gets its share, no error"),
+"C08-3": ("ECDSA keygen round2.Update abandons bookkeeping at the first wrong-channel stored message", "a flag-flipped round-2 message from a lower-indexed peer, then other deliveries: WaitingFor reports an honest later-indexed peer"),
+"C08-4": ("ECDSA resharing resetOK 'clear via copy' sized len(newOK): oldOK[len(newOK):] is never cleared", "a shrinking resharing (5 -> 3): in round 3 new members omit the high-indexed old members from WaitingFor and leave the round early"),
+"C12-3": ("SHA512_256i_TAGGED copies the tag into a 32-byte array instead of hashing it", "sessions that agree in their first 32 bytes, i.e. ssid||i vs ssid||j: a proof made for prover i verifies for prover j"),
+"C12-4": ("schnorr ZKProof.Verify compares only the x-coordinates", "response T replaced by q - T on secp256k1 (commitment unchanged)"),
+"C19-3": ("safe-prime worker uses rand.Read instead of io.ReadFull", "a healthy entropy source that returns short reads: no pairs with 1-byte reads, primes with a constant zero tail with larger chunks"),
+"C19-4": ("GenerateNTildei tests safePrimes[0] twice", "a composite (or 1) in the second slot only"),
+"C20-3": ("ECDSA nonce share k drawn from PartialKeyRand() instead of Rand()", "parameters carrying a seeded / repeating SetPartialKeyRand (the key-generation source): R repeats across sessions"),
+"C20-4": ("EdDSA BuildLocalSaveDataSubset returns sourceData itself for the full committee; PrepareForSigning reduces ids mod q in place", "EdDSA, signer set = all saved parties in saved order, a party id >= q: stored Ks rewritten"),
 }
 conf = {}
 for f in glob.glob('/tmp/seed-confirm/*.result'):
@@ -51,7 +71,7 @@ if os.path.exists('/verif/tools/trial-logs/SUMMARY.txt'):
         p = l.split()
         if len(p) >= 4:
             det[(p[0], p[1])] = (int(p[2]) if p[2].isdigit() else 0, ' '.join(p[3:]))
-extra = json.load(open('/verif/tools/seed_extra_results.json')) if os.path.exists('/tmp/seed-extra.json') else {}
+extra = json.load(open('/verif/tools/seed_extra_results.json')) if os.path.exists('/verif/tools/seed_extra_results.json') else {}
 os.makedirs('/verif/seeded', exist_ok=True)
 for sid, (what, need) in sorted(needs.items()):
     src = '/tmp/seed-out/' + sid
